@@ -57,7 +57,7 @@ type shScenario struct {
 	Hooks         bool          // logging hooks installed on the client; every hook call is a scheduling point
 	Close2After   time.Duration // >=0: a second Close call that long after the first
 	SlowOps       bool          // dialling and closing the port take (a little) time and are scheduling points
-	ShortTimeouts bool          // network client with ReadTimeout 40 ms / WriteTimeout 5 ms (the device answers within 3 ms)
+	ShortTimeouts bool          // network client with ReadTimeout 20 ms / WriteTimeout 2 ms (the device answers within 3 ms)
 }
 
 type shRec struct {
@@ -351,7 +351,7 @@ func runShared(rc *RunCtx, sc *shScenario) *shOutcome {
 				return newPipe(), nil
 			}}
 		if sc.ShortTimeouts {
-			conf.ReadTimeout, conf.WriteTimeout = 40*time.Millisecond, 5*time.Millisecond
+			conf.ReadTimeout, conf.WriteTimeout = 20*time.Millisecond, 2*time.Millisecond
 		}
 		if hooks != nil {
 			conf.Hooks = hooks
